@@ -39,7 +39,7 @@ def obs_of(p):
     # collapsed into twice goes negative in Python where the model's natural number stays at 0.  The two are equivalent: only a
     # frame opened inside a group (depth >= 1) is ever patched, while it is on the stack len(hog_stack) >= 1, and the depth is
     # only ever compared with len(hog_stack).  Negative depths are therefore read as 0.
-    fr = '|'.join('%d/%d/%d' % (max(0, f['depth']), f['size'], len(f['node'].children)) for f in reversed(p.paralog_stack))
+    fr = '%d:' % len(p.paralog_stack) + '|'.join('%d/%d/%d' % (max(0, f['depth']), f['size'], len(f['node'].children)) for f in reversed(p.paralog_stack[-8:]))
     ip = p.in_paralogGroup
     if ip is not None:
         ip = max(0, ip)
